@@ -1590,6 +1590,9 @@ func (p *parsing) parseIdentifiersList(tok token) ([]*ast.Identifier, token) {
 		tok = p.next()
 		if tok.typ == tokenComma {
 			tok = p.next()
+			if tok.typ != tokenIdentifier {
+				panic(syntaxError(tok.pos, "unexpected %s, expecting name", tok))
+			}
 			continue
 		}
 		break
